@@ -88,6 +88,10 @@ class _TextParser(HTMLParser):
       return
 
   def handle_endtag(self, tag):
+    if isinstance(self.parent, model.P):
+      LOGGER.warning("Unmatched end tag %s at line %s", tag, self.line_num)
+      return
+
     self.parent = self.parent.parent()
 
   def handle_data(self, data):
